@@ -2,6 +2,7 @@ SPECIFICATION SSpec
 CONSTANTS
   Acc = {"a", "b", "c"}
   Members = {"a", "b", "c"}
+  MaxJoins = 2
   MaxMsgs = 3
   MaxFaults = 2
   MaxOpen = 1
